@@ -294,7 +294,9 @@ def scope_correspondence(out, drv, sig, fname):
         gen = r[0] if output else r
         w = drv.ask({"cmd": "gensym", "fn": fname, "params": [p["name"] for p in sig], "output": output})
         got_params = list(inspect.signature(gen).parameters)
-        scope_names = sorted(k for k in gen.__globals__ if k != "__builtins__")
+        # what the interpreter itself adds to a globals dict (`__builtins__` on exec, `__warningregistry__` once a warning was
+        # issued from code running in it) is not a generated identifier
+        scope_names = sorted(k for k in gen.__globals__ if k not in ("__builtins__", "__warningregistry__"))
         want_scope = sorted(w["scope"][1:])
         out.count("scope_checked")
         if sorted(got_params) != sorted(w["params"]) or scope_names != want_scope:
